@@ -631,3 +631,249 @@ Proof.
       assert (rr2 = rr) by congruence. subst rr2. rewrite U. exact Ee.
     + right. right. exact I.
 Qed.
+
+(* ---------- the theorems ---------- *)
+
+(* C14_inv *)
+Theorem inv_thm : forall tr s, forallb safe tr = true -> exec init tr = Some s ->
+  forall name i, getS name (s_dir s) = Some i ->
+    is_temp name = true \/
+    exists wr t, getN i (s_w s) = Some wr /\ key (w_url wr) = name /\
+      getN i (s_ino s) = Some (w_content wr) /\
+      In (ECreate i (w_url wr) (w_content wr) t) tr /\ In (ERename i) tr /\
+      (forall tr' s', forallb safe tr' = true -> exec s tr' = Some s' ->
+         getN i (s_ino s') = Some (w_content wr)).
+Proof.
+  intros tr s S H name i G.
+  pose proof (exec_inv _ _ _ inv_init S H) as I.
+  destruct (inv_d _ I _ _ G) as [T|[wr [D K]]]; [left; exact T|right].
+  destruct (exec_w_origin _ _ _ _ _ H S (proj1 D)) as [[wr0 G0]|[t Hin]]; [discriminate G0|].
+  destruct (exec_done_origin _ _ _ _ _ H inv_init S D) as [[G0 _]|Hr]; [discriminate G0|].
+  exists wr, t. split; [exact (proj1 D)|]. split; [exact K|]. split; [exact (done_data _ _ _ I D)|].
+  split; [exact Hin|]. split; [exact Hr|].
+  intros tr' s' S' H'. apply done_data; [exact (exec_inv _ _ _ I S' H')|exact (exec_done _ _ _ _ _ H' D)].
+Qed.
+
+(* C14_read *)
+Theorem read_thm : forall tr s, forallb safe tr = true -> exec init tr = Some s ->
+  forall r rr res, getN r (s_r s) = Some rr -> r_st rr = RDone res ->
+    In (EOpen r (r_url rr)) tr /\
+    (res = Miss \/
+     exists w wr t, getN w (s_w s) = Some wr /\ res = Hit (w_content wr) /\
+       key (w_url wr) = key (r_url rr) /\
+       In (ECreate w (w_url wr) (w_content wr) t) tr /\ In (ERename w) tr).
+Proof.
+  intros tr s S H r rr res G R.
+  pose proof (exec_inv _ _ _ inv_init S H) as I.
+  split.
+  { destruct (exec_r_origin _ _ _ _ _ H G) as [[rr0 G0]|Hin]; [discriminate G0|exact Hin]. }
+  pose proof (inv_r _ I _ _ G) as Rk. unfold rok in Rk. rewrite R in Rk.
+  destruct (r_ino rr) as [i|].
+  - destruct Rk as [wr [D [K C]]]. destruct res as [|c]; [destruct C|]. right.
+    destruct (exec_w_origin _ _ _ _ _ H S (proj1 D)) as [[wr0 G0]|[t Hin]]; [discriminate G0|].
+    destruct (exec_done_origin _ _ _ _ _ H inv_init S D) as [[G0 _]|Hr]; [discriminate G0|].
+    exists i, wr, t. subst c. repeat split; try assumption. exact (proj1 D).
+  - left. congruence.
+Qed.
+
+(* the holder of a key only changes by a rename *)
+Lemma step_key_holder : forall s e s' k i, inv s -> safe e = true -> step s e = Some s' ->
+  getS k (s_dir s) = Some i -> is_temp k = false ->
+  exists i', getS k (s_dir s') = Some i' /\ (i' = i \/ e = ERename i').
+Proof.
+  intros s e s' k i [IW _ _] S H G T.
+  destruct e; try discriminate; cbn in H.
+  - (* create *) repeat dmatch H. inversion H; subst; clear H. cbn. exists i. split; [|left; reflexivity].
+    assert (k <> t) by (intros ->; congruence). mapS. exact G.
+  - repeat dmatch H. inversion H; subst; clear H. cbn. exists i. auto.
+  - repeat dmatch H; inversion H; subst; clear H; cbn; exists i; auto.
+  - (* rename *)
+    destruct (getN w (s_w s)) as [wr|] eqn:Gw; [|discriminate].
+    destruct (w_pc wr) eqn:Pc; try discriminate.
+    destruct (w_inplace wr) eqn:Inp; try discriminate.
+    destruct (getS (w_tmp wr) (s_dir s)) as [n|] eqn:Gt; [|discriminate].
+    inversion H; subst s'; clear H. cbn.
+    destruct (IW _ _ Gw) as [_ [_ [d [_ [_ [_ L]]]]]].
+    destruct (L (or_intror Pc)) as [Tt Gt']. assert (n = w) by congruence. subst n.
+    destruct (String.eqb k (key (w_url wr))) eqn:E.
+    + apply String.eqb_eq in E. subst k. exists w. split; [mapS; reflexivity|right; reflexivity].
+    + apply String.eqb_neq in E. exists i. split; [|left; reflexivity].
+      assert (k <> w_tmp wr) by (intros ->; congruence). mapS. mapS. exact G.
+  - (* fail *)
+    destruct (getN w (s_w s)) as [wr|] eqn:Gw; [|discriminate].
+    destruct (IW _ _ Gw) as [_ [_ [d [_ [_ [_ L]]]]]].
+    assert (live (w_pc wr) /\ s_dir s' = delS (w_tmp wr) (s_dir s)) as [Lv ->].
+    { destruct (w_pc wr) eqn:Pc; try discriminate; destruct (w_inplace wr); try discriminate;
+        inversion H; (split; [|reflexivity]); [left|right]; reflexivity. }
+    destruct (L Lv) as [Tt _]. exists i. split; [|left; reflexivity].
+    assert (k <> w_tmp wr) by (intros ->; congruence). mapS. exact G.
+  - repeat dmatch H; inversion H; subst; clear H; cbn; exists i; auto.
+  - repeat dmatch H; inversion H; subst; clear H; cbn; exists i; auto.
+  - repeat dmatch H; inversion H; subst; clear H; cbn; exists i; auto.
+  - repeat dmatch H; inversion H; subst; clear H; cbn; exists i; auto.
+Qed.
+
+Lemma exec_key_holder : forall tr s s' k i, inv s -> forallb safe tr = true -> exec s tr = Some s' ->
+  getS k (s_dir s) = Some i -> is_temp k = false ->
+  exists i', getS k (s_dir s') = Some i' /\ (i' = i \/ In (ERename i') tr).
+Proof.
+  induction tr as [|e tr IH]; intros s s' k i I S H G T; cbn in H.
+  - inversion H. subst. exists i. auto.
+  - cbn in S. apply andb_true_iff in S. destruct S as [Se St].
+    destruct (step s e) as [s1|] eqn:E; [|discriminate].
+    destruct (step_key_holder _ _ _ _ _ I Se E G T) as [i1 [G1 C1]].
+    destruct (IH _ _ _ _ (step_inv _ _ _ I Se E) St H G1 T) as [i2 [G2 C2]].
+    exists i2. split; [exact G2|].
+    destruct C2 as [-> | In2]; [|right; right; exact In2].
+    destruct C1 as [-> | ->]; [left; reflexivity|right; left; reflexivity].
+Qed.
+
+(* C14_fresh *)
+Theorem fresh_thm : forall tr1 tr2 tr3 w r u s,
+  forallb safe (tr1 ++ ERename w :: tr2 ++ EOpen r u :: tr3) = true ->
+  exec init (tr1 ++ ERename w :: tr2 ++ EOpen r u :: tr3) = Some s ->
+  forall wr, getN w (s_w s) = Some wr -> key (w_url wr) = key u ->
+  forall rr res, getN r (s_r s) = Some rr -> r_st rr = RDone res ->
+  exists w' wr', getN w' (s_w s) = Some wr' /\ w_pc wr' = PDone /\ res = Hit (w_content wr') /\
+                 key (w_url wr') = key u /\ (w' = w \/ In (ERename w') tr2).
+Proof.
+  intros tr1 tr2 tr3 w r u s S H wr Gw K rr res Gr R.
+  rewrite forallb_app in S. apply andb_true_iff in S. destruct S as [S1 S]. cbn in S.
+  rewrite forallb_app in S. apply andb_true_iff in S. destruct S as [S2 S3]. cbn in S3.
+  rewrite exec_app in H. destruct (exec init tr1) as [s1|] eqn:E1; [|discriminate].
+  cbn [C14_Model.exec] in H. destruct (step s1 (ERename w)) as [s2|] eqn:E2; [|discriminate].
+  rewrite exec_app in H. destruct (exec s2 tr2) as [s3|] eqn:E3; [|discriminate].
+  cbn [C14_Model.exec] in H. destruct (step s3 (EOpen r u)) as [s4|] eqn:E4; [|discriminate].
+  pose proof (exec_inv _ _ _ inv_init S1 E1) as I1.
+  pose proof (step_inv _ (ERename w) _ I1 eq_refl E2) as I2.
+  pose proof (exec_inv _ _ _ I2 S2 E3) as I3.
+  pose proof (step_inv _ (EOpen r u) _ I3 eq_refl E4) as I4.
+  pose proof (exec_inv _ _ _ I4 S3 H) as I5.
+  (* after the rename the key denotes inode w *)
+  assert (exists wr2, getN w (s_w s2) = Some wr2 /\ getS (key (w_url wr2)) (s_dir s2) = Some w) as [wr2 [Gw2 Gk2]].
+  { pose proof E2 as E2'. cbn in E2'.
+    destruct (getN w (s_w s1)) as [wr1|] eqn:Gw1; [|discriminate].
+    destruct (w_pc wr1) eqn:Pc; try discriminate.
+    destruct (w_inplace wr1); try discriminate.
+    destruct (getS (w_tmp wr1) (s_dir s1)) as [n|] eqn:Gt; [|discriminate].
+    inversion E2'; subst s2; clear E2'. cbn.
+    destruct (inv_w _ I1 _ _ Gw1) as [_ [_ [d [_ [_ [_ L]]]]]].
+    destruct (L (or_intror Pc)) as [_ Gt']. assert (n = w) by congruence. subst n.
+    exists (with_pc wr1 PDone). split; [mapN; reflexivity|]. cbn. mapS. reflexivity. }
+  (* its url is the one seen at the end *)
+  assert (w_url wr2 = w_url wr) as U2.
+  { destruct (exec_w_stable _ _ _ _ _ E3 Gw2) as [wr3 [G3 [U3 _]]].
+    destruct (step_w_stable _ _ _ _ _ E4 G3) as [wr4 [G4 [U4 _]]].
+    destruct (exec_w_stable _ _ _ _ _ H G4) as [wr5 [G5 [U5 _]]].
+    assert (wr5 = wr) by congruence. subst wr5. congruence. }
+  rewrite U2, K in Gk2.
+  destruct (exec_key_holder _ _ _ _ _ I2 S2 E3 Gk2 (key_not_temp sha u)) as [i3 [Gk3 C3]].
+  (* the reader opens that inode *)
+  assert (exists rr4, getN r (s_r s4) = Some rr4 /\ r_ino rr4 = Some i3 /\ r_url rr4 = u) as [rr4 [Gr4 [Ri4 Ru4]]].
+  { pose proof E4 as E4'. cbn in E4'. destruct (getN r (s_r s3)); [discriminate|].
+    inversion E4'; subst s4; clear E4'. cbn. rewrite Gk3.
+    eexists. split; [mapN; reflexivity|]. split; reflexivity. }
+  destruct (exec_r_stable _ _ _ _ _ H Gr4) as [rr5 [Gr5 [Ru5 Ri5]]].
+  assert (rr5 = rr) by congruence. subst rr5.
+  pose proof (inv_r _ I5 _ _ Gr) as Rk. unfold rok in Rk. rewrite Ri5, Ri4, R in Rk.
+  destruct Rk as [wr' [[Gw' P'] [K' C']]]. destruct res as [|c]; [destruct C'|].
+  exists i3, wr'. split; [exact Gw'|]. split; [exact P'|]. split; [congruence|].
+  split; [congruence|exact C3].
+Qed.
+
+(* C14_temp *)
+Theorem temp_thm : forall t u, is_temp t = true -> t <> key u /\ keyshape t = false.
+Proof.
+  intros t u T. split; [|exact (temp_not_keyshape t T)].
+  intros ->. rewrite key_not_temp in T. discriminate.
+Qed.
+
+(* a reader only ever holds the inode of a finished (renamed) writer: a temporary
+   file, left over or in progress, is never what a Get reads *)
+Theorem reader_inode_thm : forall tr s, forallb safe tr = true -> exec init tr = Some s ->
+  forall r rr i, getN r (s_r s) = Some rr -> r_ino rr = Some i ->
+  exists wr, getN i (s_w s) = Some wr /\ w_pc wr = PDone /\ In (ERename i) tr /\
+             getN i (s_ino s) = Some (w_content wr).
+Proof.
+  intros tr s S H r rr i G Ri.
+  pose proof (exec_inv _ _ _ inv_init S H) as I.
+  pose proof (inv_r _ I _ _ G) as Rk. unfold rok in Rk. rewrite Ri in Rk.
+  destruct Rk as [wr [D _]].
+  destruct (exec_done_origin _ _ _ _ _ H inv_init S D) as [[G0 _]|Hr]; [discriminate G0|].
+  exists wr. split; [exact (proj1 D)|]. split; [exact (proj2 D)|]. split; [exact Hr|].
+  exact (done_data _ _ _ I D).
+Qed.
+
+End Inv.
+
+(* ---------- decoding ---------- *)
+Section Decode.
+Variable sha : string -> list N.
+Variable bundle : Type.
+Variable encode : bundle -> data.
+Variable decode : data -> option bundle.
+Hypothesis decode_encode : forall b, decode (encode b) = Some b.
+
+(* every writer stores the encoding of a bundle *)
+Definition encoded_trace (tr : list event) : Prop :=
+  forall w u c t, In (ECreate w u c t) tr -> exists b, c = encode b.
+
+Theorem read_decodes : forall tr s, forallb safe tr = true -> exec sha init tr = Some s ->
+  encoded_trace tr ->
+  forall r rr c, getN r (s_r s) = Some rr -> r_st rr = RDone (Hit c) ->
+  exists b w u t, decode c = Some b /\ In (ECreate w u (encode b) t) tr /\ In (ERename w) tr /\
+                  key sha u = key sha (r_url rr).
+Proof.
+  intros tr s S H En r rr c G R.
+  destruct (read_thm sha _ _ S H _ _ _ G R) as [_ [Hm|[w [wr [t [Gw [E [K [Ic Ir]]]]]]]]]; [discriminate|].
+  inversion E; subst c. destruct (En _ _ _ _ Ic) as [b Eb].
+  exists b, w, (w_url wr), t. rewrite Eb at 1. split; [apply decode_encode|].
+  rewrite <- Eb. auto.
+Qed.
+End Decode.
+
+(* ---------- the variant "truncate the key and write in place" breaks all of it ---------- *)
+Definition sha0 : string -> list N := fun _ => [171%N].
+Definition cA : data := dat_of "AAAA".
+Definition cB : data := dat_of "BBBBBB".
+Definition tmp1 : string := tmp_prefix ++ "1" ++ tmp_suffix.
+
+(* a reader that opened the complete entry of writer 0 reads two bytes, writer 1
+   truncates the key in place and writes, the reader reads on: a mixed entry *)
+Definition tr_inplace_mixed : list event :=
+  [ECreate 0 "u" cA tmp1; EWrite 0 4; EClose 0; ERename 0;
+   EOpen 0 "u"; ERead 0 2; EInplace 1 "u" cB; EWrite 1 6; ERead 0 10; EEof 0].
+
+(* a reader arriving while the in-place writer has written two bytes: a truncated entry;
+   the writer is then killed: the truncated entry stays under the key *)
+Definition tr_inplace_trunc : list event :=
+  [ECreate 0 "u" cA tmp1; EWrite 0 4; EClose 0; ERename 0;
+   EInplace 1 "u" cB; EWrite 1 2; ECrash 1; EOpen 0 "u"; ERead 0 10; EEof 0].
+
+Definition bad_read (tr : list event) : Prop :=
+  exists s rr c, exec sha0 init tr = Some s /\ getN 0%N (s_r s) = Some rr /\ r_st rr = RDone (Hit c) /\
+    forall w wr, getN w (s_w s) = Some wr -> c <> w_content wr.
+
+Lemma inplace_mixed : bad_read tr_inplace_mixed.
+Proof.
+  eexists. eexists. eexists. split; [vm_compute; reflexivity|]. split; [vm_compute; reflexivity|].
+  split; [reflexivity|]. intros w wr G. vm_compute in G.
+  destruct w as [|[p|p|]]; try discriminate; inversion G; subst; vm_compute; discriminate.
+Qed.
+
+Lemma inplace_trunc : bad_read tr_inplace_trunc.
+Proof.
+  eexists. eexists. eexists. split; [vm_compute; reflexivity|]. split; [vm_compute; reflexivity|].
+  split; [reflexivity|]. intros w wr G. vm_compute in G.
+  destruct w as [|[p|p|]]; try discriminate; inversion G; subst; vm_compute; discriminate.
+Qed.
+
+(* after the kill the key denotes an incomplete entry: the invariant is false *)
+Lemma inplace_key_incomplete :
+  exists s i d, exec sha0 init tr_inplace_trunc = Some s /\ getS (key sha0 "u") (s_dir s) = Some i /\
+    getN i (s_ino s) = Some d /\ forall w wr, getN w (s_w s) = Some wr -> d <> w_content wr.
+Proof.
+  eexists. eexists. eexists. split; [vm_compute; reflexivity|]. split; [vm_compute; reflexivity|].
+  split; [vm_compute; reflexivity|]. intros w wr G. vm_compute in G.
+  destruct w as [|[p|p|]]; try discriminate; inversion G; subst; vm_compute; discriminate.
+Qed.
